@@ -90,6 +90,7 @@ def printer_control_f3(ctx):
 def c02(ctx):
     for sl in tier(ctx, ["qcls", "wrap", "smoke", "dir"], ["cls", "wrap", "panic", "smoke", "dir"]):
         printer_slice(ctx, sl)
+    buffer_model(ctx)      # a result that changes after it was returned is not independent of later data
 
 
 def c05(ctx):
@@ -106,7 +107,9 @@ def c06(ctx):
 
 def c11(ctx):
     printer_slice(ctx, "panic")
+    printer_slice(ctx, "dir")
     buffer_model(ctx)
+    ctx.harness(["fmtdiff-drive", "-prop", "C11", "-n", str(tier(ctx, 60000, 1500000))])
     if ctx.tier == "thorough":
         printer_slice(ctx, "smoke")
         printer_slice(ctx, "wrap")
@@ -249,6 +252,7 @@ def c01(ctx):
     buffer_traces(ctx)
     repo_suite_traces(ctx)
     escape_model(ctx)
+    writer_model(ctx)
     printer_slice(ctx, tier(ctx, "qbytes", "bytes"))
     printer_slice(ctx, tier(ctx, "qcompose", "compose"), module="MCCompose", cfg="Compose.cfg")
     if ctx.tier == "thorough":
@@ -262,6 +266,7 @@ def c03(ctx):
     buffer_traces(ctx)
     repo_suite_traces(ctx)
     escape_model(ctx)
+    writer_model(ctx)
     printer_slice(ctx, tier(ctx, "qbytes", "bytes"))
     printer_slice(ctx, tier(ctx, "qcompose", "compose"), module="MCCompose", cfg="Compose.cfg")
     if ctx.tier == "thorough":
@@ -286,7 +291,7 @@ def c08(ctx):
 
 
 def c16(ctx):
-    for sl in tier(ctx, ["qcls", "wrap"], ["cls", "wrap", "panic", "smoke", "qbytes"]):
+    for sl in tier(ctx, ["qcls", "wrap", "smoke", "dir"], ["cls", "wrap", "panic", "smoke", "qbytes", "dir", "qerrorf"]):
         printer_slice(ctx, sl, module="MCRoutes", cfg="Routes.cfg")
 
 
